@@ -133,8 +133,40 @@ def unbalanced_quote_in_comment(text):
     return any(tt in T.Comment and (v.count("'") % 2 or v.count('"') % 2) for tt, v in oracles.lex(text))
 
 
+def only_blanks_after_comment_lines_removed(text, opts):
+    """KF-C10-5: is format(format(text)) obtained from format(text) by deleting only whitespace tokens that directly follow the line
+    break of a single-line comment?"""
+    try:
+        out1 = sqlparse.format(text, **opts)
+        out2 = sqlparse.format(out1, **opts)
+    except Exception:
+        return False
+    toks = oracles.lex(out1)
+    deletable = set()
+    for i, (tt, v) in enumerate(toks):
+        if tt in T.Comment.Single and v.endswith(('\n', '\r')):
+            j = i + 1
+            while j < len(toks) and toks[j][0] in T.Whitespace:
+                deletable.add(j)
+                j += 1
+    if not deletable or out1 == out2:
+        return False
+    pos = 0
+    for i, (tt, v) in enumerate(toks):
+        if out2.startswith(v, pos):
+            pos += len(v)
+        elif i in deletable:
+            continue
+        else:
+            return False
+    return pos == len(out2)
+
+
 def classify(f, kf):
     for k in kf:
+        if k['id'] == 'KF-C10-5' and 'strip_whitespace is not a fixed point' in f['what'] and isinstance(f['input'], str) \
+                and only_blanks_after_comment_lines_removed(f['input'], {'strip_whitespace': True}):
+            return k['id']
         if k['id'] == 'KF-C10-3' and 'strip_whitespace is not a fixed point' in f['what'] and re.search(r'[ \t\r\n]{2,},|[ \t\r\n],[ \t\r\n]*\n|\s\s+,', f['input']):
             return k['id']
         if k['id'] == 'KF-C10-4' and isinstance(f['input'], str) and unbalanced_quote_in_comment(f['input']):
